@@ -164,8 +164,16 @@ pub fn run_case(a: &Args, tag: &'static str, idx: u64, acc: &mut Acc) {
         let op = gen_op(&mut rng, &domain, &universe, &view);
         // not demanded: transfers whose source has the wrong type or whose destination lies inside the source
         // (left unspecified by C01; the fast path of a backend and the generic fallback legitimately differ there)
+        let mut last_step_unspecified = false;
         if op.dest().is_some() && view.expect(&op) == crate::model::Exp::Unspec {
-            continue;
+            // a directory transfer into its own subtree does not terminate (documented); every other unspecified
+            // transfer (wrong-typed source, the root as source) is still run — as the last step of the history, with
+            // the confinement monitors and the no-panic rule only
+            let into_itself = matches!(&op, Op::CopyDir(sx, dx) | Op::MoveDir(sx, dx) if dx == sx || is_under(dx, sx) || sx.is_empty());
+            if into_itself || !rng.chance(1, 3) {
+                continue;
+            }
+            last_step_unspecified = true;
         }
         let class = view.class(op.path());
         let clsig = match op.dest() { Some(d) => format!("{}->{}", class.name(), view.class(d).name()), None => class.name().to_string() };
@@ -209,6 +217,9 @@ pub fn run_case(a: &Args, tag: &'static str, idx: u64, acc: &mut Acc) {
         if let Err(e) = &res {
             if let Some(pi) = &e.panic {
                 acc.violate(Violation { property: "C13", signature: format!("panic|{}|{}|{}|{}", op.name(), clsig, pi.head(), pi.file()), summary: format!("{} panicked: {}", op.render(), pi.message), detail: mk(&trace, J::Null), order });
+                if !matches!(&tres, Err(te) if te.panic.is_some()) {
+                    acc.violate(Violation { property: "C07", signature: format!("altroot-panics|{}|{}|twin:{}", op.name(), clsig, if tres.is_ok() { "Ok" } else { "Err" }), summary: format!("{} through the altroot panicked ({} at {}) while the same operation on P/q of the underlying filesystem returned {}", op.render(), pi.message, pi.location, render_res(&tres)), detail: mk(&trace, J::Null), order });
+                }
                 return;
             }
             crate::errmon::check_op_error(&cfg, &op, &view, e, acc, &|s, summary, what| Violation { property: "C12", signature: s, summary, detail: what, order });
@@ -251,6 +262,12 @@ pub fn run_case(a: &Args, tag: &'static str, idx: u64, acc: &mut Acc) {
         if want_view != got_view {
             let k: Vec<&String> = want_view.m.keys().chain(got_view.m.keys()).filter(|k| want_view.m.get(*k) != got_view.m.get(*k)).collect();
             acc.violate(Violation { property: "C07", signature: format!("view-differs|{}|{}", op.name(), clsig), summary: format!("after {} the altroot view differs from the subtree below {:?} at {:?}", op.render(), p, k), detail: mk(&trace, J::Null), order });
+            return;
+        }
+        if last_step_unspecified {
+            // outcome and effect of an unspecified transfer may legitimately differ between the routes: the history
+            // ends here, after the no-panic, confinement and view monitors
+            acc.count("unspecified_transfers_run_as_last_step", 1);
             return;
         }
         // (d) same outcome and effect as the translated operation on the twin
